@@ -120,6 +120,10 @@ fn short(k: &str) -> String {
     h.chars().take(8).collect()
 }
 
+fn sid(id: &str) -> &str {
+    id.get(..8).unwrap_or(id)
+}
+
 fn err_name(e: &BlobError) -> String {
     match e {
         BlobError::NotFound(_) => "NotFound".into(),
@@ -222,15 +226,15 @@ async fn read_check(blob: &BlobStore, id: &str, want: &[u8], prefix: &str, when:
         Ok(b) if b == want => Ok(()),
         Ok(b) => Err((
             format!("{prefix}:read-bytes-differ{when}"),
-            format!("get({}) returned {} bytes, written {} bytes, first difference at offset {}", &id[..8.min(id.len())], b.len(), want.len(), first_diff(&b, want)),
+            format!("get({}) returned {} bytes, written {} bytes, first difference at offset {}", sid(id), b.len(), want.len(), first_diff(&b, want)),
         )),
         Err(BlobError::ChunkMissing(k)) => Err((
             format!("{prefix}:live-artifact-chunk-missing{when}"),
-            format!("get({}) of a live {}-byte artifact = ChunkMissing({})", &id[..8.min(id.len())], want.len(), short(&k)),
+            format!("get({}) of a live {}-byte artifact = ChunkMissing({})", sid(id), want.len(), short(&k)),
         )),
         Err(e) => Err((
             format!("{prefix}:read-error-on-live-artifact{when}"),
-            format!("get({}) of a live {}-byte artifact = Err({})", &id[..8.min(id.len())], want.len(), err_name(&e)),
+            format!("get({}) of a live {}-byte artifact = Err({})", sid(id), want.len(), err_name(&e)),
         )),
     }
 }
@@ -254,8 +258,8 @@ async fn check_quiescent(blob: &BlobStore, store: &TensorStore, live: &Live, sla
         r.count("reads_checked", 1);
         match blob.verify(id) {
             Ok(true) => r.count("verify_true_on_undamaged", 1),
-            Ok(false) => return Some((format!("{prefix}:verify-false-on-undamaged-artifact"), format!("verify({}) = false although get() returned the written bytes", &id[..8]))),
-            Err(e) => return Some((format!("{prefix}:verify-error-on-undamaged-artifact"), format!("verify({}) = Err({})", &id[..8], err_name(&e)))),
+            Ok(false) => return Some((format!("{prefix}:verify-false-on-undamaged-artifact"), format!("verify({}) = false although get() returned the written bytes", sid(&id)))),
+            Err(e) => return Some((format!("{prefix}:verify-error-on-undamaged-artifact"), format!("verify({}) = Err({})", sid(&id), err_name(&e)))),
         }
     }
     let v = view(store);
@@ -401,7 +405,7 @@ async fn damage_check(blob: &BlobStore, store: &TensorStore, live: &Live, rng: &
     } else if store.put(key.clone(), t).is_err() {
         return None;
     }
-    trace.push(format!("damage[{}] chunk {} of {}", kind, short(&key), &id[..8]));
+    trace.push(format!("damage[{}] chunk {} of {}", kind, short(&key), sid(&id)));
     let mut out = None;
     for (aid, l) in &v.metas {
         if !live.contains_key(aid) || !l.contains(&key) {
@@ -409,7 +413,7 @@ async fn damage_check(blob: &BlobStore, store: &TensorStore, live: &Live, rng: &
         }
         match blob.verify(aid) {
             Ok(true) => {
-                out = Some((format!("seq:verify-true-on-damaged-artifact:{kind}"), format!("chunk {} of artifact {} damaged underneath ({}), verify() still = Ok(true)", short(&key), &aid[..8], kind)));
+                out = Some((format!("seq:verify-true-on-damaged-artifact:{kind}"), format!("chunk {} of artifact {} damaged underneath ({}), verify() still = Ok(true)", short(&key), sid(&aid), kind)));
                 break;
             }
             _ => r.count("damage_reported_by_verify", 1),
@@ -417,7 +421,7 @@ async fn damage_check(blob: &BlobStore, store: &TensorStore, live: &Live, rng: &
         if let Ok(mut rd) = blob.reader(aid).await {
             match rd.verify().await {
                 Ok(true) => {
-                    out = Some((format!("seq:reader-verify-true-on-damaged-artifact:{kind}"), format!("chunk {} of artifact {} damaged underneath ({}), BlobReader::verify() still = Ok(true)", short(&key), &aid[..8], kind)));
+                    out = Some((format!("seq:reader-verify-true-on-damaged-artifact:{kind}"), format!("chunk {} of artifact {} damaged underneath ({}), BlobReader::verify() still = Ok(true)", short(&key), sid(&aid), kind)));
                     break;
                 }
                 _ => r.count("damage_reported_by_reader_verify", 1),
@@ -439,7 +443,7 @@ async fn damage_check(blob: &BlobStore, store: &TensorStore, live: &Live, rng: &
 async fn stream_read_check(blob: &BlobStore, id: &str, want: &[u8], rng: &mut Rng, c: usize, r: &mut Report) -> Option<Viol> {
     let mut rd = match blob.reader(id).await {
         Ok(x) => x,
-        Err(e) => return Some(("seq:reader-error-on-live-artifact".into(), format!("reader({}) = Err({})", &id[..8], err_name(&e)))),
+        Err(e) => return Some(("seq:reader-error-on-live-artifact".into(), format!("reader({}) = Err({})", sid(&id), err_name(&e)))),
     };
     let mut got = Vec::new();
     if rng.bool() {
@@ -449,7 +453,7 @@ async fn stream_read_check(blob: &BlobStore, id: &str, want: &[u8], rng: &mut Rn
             match rd.read(&mut buf).await {
                 Ok(0) => break,
                 Ok(n) => got.extend_from_slice(&buf[..n]),
-                Err(e) => return Some(("seq:reader-error-on-live-artifact".into(), format!("read() on {} = Err({})", &id[..8], err_name(&e)))),
+                Err(e) => return Some(("seq:reader-error-on-live-artifact".into(), format!("read() on {} = Err({})", sid(&id), err_name(&e)))),
             }
             if got.len() > want.len() + 4 * c {
                 break;
@@ -460,16 +464,16 @@ async fn stream_read_check(blob: &BlobStore, id: &str, want: &[u8], rng: &mut Rn
             match rd.next_chunk().await {
                 Ok(None) => break,
                 Ok(Some(d)) => got.extend(d),
-                Err(e) => return Some(("seq:reader-error-on-live-artifact".into(), format!("next_chunk() on {} = Err({})", &id[..8], err_name(&e)))),
+                Err(e) => return Some(("seq:reader-error-on-live-artifact".into(), format!("next_chunk() on {} = Err({})", sid(&id), err_name(&e)))),
             }
         }
     }
     if got != want {
-        return Some(("seq:streamed-read-bytes-differ".into(), format!("streamed read of {} gave {} bytes, written {}, first difference at {}", &id[..8], got.len(), want.len(), first_diff(&got, want))));
+        return Some(("seq:streamed-read-bytes-differ".into(), format!("streamed read of {} gave {} bytes, written {}, first difference at {}", sid(&id), got.len(), want.len(), first_diff(&got, want))));
     }
     match rd.verify().await {
         Ok(true) => {}
-        other => return Some(("seq:reader-verify-not-true-on-undamaged".into(), format!("BlobReader::verify on {} = {:?}", &id[..8], other.map_err(|e| err_name(&e))))),
+        other => return Some(("seq:reader-verify-not-true-on-undamaged".into(), format!("BlobReader::verify on {} = {:?}", sid(&id), other.map_err(|e| err_name(&e))))),
     }
     r.count("streamed_reads_checked", 1);
     None
@@ -689,14 +693,17 @@ async fn seq_case_async(case_seed: u64, big: bool, r: &mut Report) {
             5 => {
                 let ids: Vec<String> = live.keys().cloned().collect();
                 let id = rng.pick(&ids).clone();
-                trace.push(format!("delete({})", &id[..8]));
+                trace.push(format!("delete({})", sid(&id)));
                 match blob.delete(&id).await {
                     Ok(()) => {
                         live.remove(&id);
                         deletes += 1;
                         r.count("deletes", 1);
                     }
-                    Err(e) => fail!(("seq:delete-error-on-live-artifact".to_string(), format!("delete = Err({})", err_name(&e)))),
+                    Err(e) => {
+                        r.inconclusive(&format!("delete returned {}", err_name(&e)));
+                        return;
+                    }
                 }
             }
             6 => {
@@ -740,7 +747,7 @@ async fn seq_case_async(case_seed: u64, big: bool, r: &mut Report) {
             10 => {
                 let ids: Vec<String> = live.keys().cloned().collect();
                 let id = rng.pick(&ids).clone();
-                trace.push(format!("stream-read({})", &id[..8]));
+                trace.push(format!("stream-read({})", sid(&id)));
                 let want = live[&id].clone();
                 if let Some(v) = stream_read_check(&blob, &id, &want, &mut rng, c, r).await {
                     fail!(v);
@@ -761,7 +768,8 @@ async fn seq_case_async(case_seed: u64, big: bool, r: &mut Report) {
                 let ids: Vec<String> = live.keys().cloned().collect();
                 for id in ids {
                     if let Err(e) = blob.delete(&id).await {
-                        fail!(("seq:delete-error-on-live-artifact".to_string(), format!("delete = Err({})", err_name(&e))));
+                        r.inconclusive(&format!("delete returned {}", err_name(&e)));
+                        return;
                     }
                     live.remove(&id);
                     deletes += 1;
@@ -1107,11 +1115,9 @@ async fn conc_case_async(mut rng: Rng, scen: Scen, workers: usize, replay: Value
         }
         contents.push(Arc::new(d));
     }
-    let sh = Arc::new(Shared { blob, contents: contents.clone(), tick: AtomicU64::new(0), mutators: AtomicUsize::new(0), barrier: tokio::sync::Barrier::new(1) });
-    // Shared.barrier is rebuilt per round (actor count differs): keep blob in an Arc<Shared> per round
-    // by moving it; simpler: one Shared per round around the same BlobStore is impossible (BlobStore is
-    // not Clone), so the barrier lives outside.
-    let mut sh = sh;
+    // the shared block is rebuilt before every round (the start barrier depends on the number of
+    // actors); the BlobStore is moved from one to the next
+    let mut sh = Arc::new(Shared { blob, contents: contents.clone(), tick: AtomicU64::new(0), mutators: AtomicUsize::new(0), barrier: tokio::sync::Barrier::new(1) });
     let mut live: BTreeMap<String, usize> = BTreeMap::new();
     let rounds = 2 + rng.below(5);
     let none: HashMap<String, i64> = HashMap::new();
@@ -1453,7 +1459,7 @@ fn main() {
         assumptions: vec![
             "time passing is produced by moving `_created` of stored chunks 100 s into the past at quiescent points (the collector only compares that field with the clock); a few sequential programs really sleep 1.1 s instead".into(),
             "put(empty) answering EmptyData is the documented contract and is not judged; a zero-length artifact is produced through the streamed writer".into(),
-            "an unexpected Err from put/write/finish/gc is reported as inconclusive, not as a violation (the statement does not speak about availability)".into(),
+            "an unexpected Err from put/write/finish/delete/gc is reported as inconclusive, not as a violation (the statement does not speak about availability)".into(),
             "references held by open writers are expected on top of the live artifacts' occurrences; references leaked by abandoned writers are tolerated (upper bound only) until the next repair".into(),
             "full_gc / repair are never issued while a streamed writer is open in the judged parts (the statement is silent about in-flight uploads; see --part inflight)".into(),
             "damage that leaves the concatenated content unchanged (moving bytes between adjacent chunks) is not generated: the artifact would still read back exactly".into(),
